@@ -17,29 +17,32 @@
 (*  (vacuity guards run by checks/c04.py).                                                      *)
 EXTENDS Projectors
 CONSTANTS MaxDepth, MaxN, MaxHistView, Fault
-VARIABLES task, res, st, prev, last, contrib, lastOut, depth
+VARIABLES task, res, hsys, st, prev, last, contrib, lastOut, depth
 
-vars == << task, res, st, prev, last, contrib, lastOut, depth >>
+vars == << task, res, hsys, st, prev, last, contrib, lastOut, depth >>
 
+RECURSIVE SetToSeq(_)
+SetToSeq(S) == IF S = {} THEN << >> ELSE LET e == CHOOSE e \in S : TRUE IN << e >> \o SetToSeq(S \ {e})
 CfgOf(cl) == [views |-> 4, maxSeg |-> 1, s90 |-> cl[1], s180 |-> cl[2], sseg |-> cl[3], minTof |-> 0, maxTof |-> 0]
 Classes == { << FALSE, FALSE, FALSE >>, << FALSE, FALSE, TRUE >>, << FALSE, TRUE, FALSE >>, << FALSE, TRUE, TRUE >>, << TRUE, TRUE, TRUE >> }
 
 SysA == LET c == [views |-> 5, maxSeg |-> 0, s90 |-> FALSE, s180 |-> FALSE, sseg |-> FALSE, minTof |-> 0, maxTof |-> 0]
             B == { << vs, 0, 0, 0 >> : vs \in AllVS(c) } IN
-        [c |-> c, axs |-> {0}, tangs |-> {0}, nvox |-> 4,
+        [c |-> c, axs |-> {0}, tangs |-> {0}, nvox |-> 4, seq |-> SetToSeq(B),
          P |-> [b \in B |-> [v \in 1 .. 4 |-> (3 * b[1][1] + 5 * v + b[1][1] * v) % 4]]]
 SysB(cl) == LET c == CfgOf(cl)
                 B == { << vs, 0, a, t >> : vs \in AllVS(c), a \in {0, 1}, t \in {0, 1} } IN
-            [c |-> c, axs |-> {0, 1}, tangs |-> {0, 1}, nvox |-> 3,
+            [c |-> c, axs |-> {0, 1}, tangs |-> {0, 1}, nvox |-> 3, seq |-> SetToSeq(B),
              P |-> [b \in B |-> [v \in 1 .. 3 |-> (b[1][1] + 2 * (b[1][2] + 1) + 3 * b[3] + 5 * b[4] + 7 * v + b[1][1] * v) % 4]]]
 
 Tri(n) == [1 .. n -> {-1, 0, 1}]
 ImagesA == Tri(4)
 DataA == { [b \in Bins(SysA) |-> f[b[1][1] + 1]] : f \in Tri(5) }
 ImagesB == Tri(3)
+ImagesBL == { x \in Tri(3) : x[3] = 1 }       \* pairs of these for the linearity clause
 \* a few signed data vectors on SysB (3^48 cannot be enumerated)
 DataB(sys) == { [b \in Bins(sys) |-> ((b[1][1] + 2 * b[1][2] + 3 * b[3] + 5 * b[4] + j * (1 + b[1][1] + b[4])) % 3) - 1] : j \in 0 .. 2 }
-               \cup { [b \in Bins(sys) |-> IF b = b0 THEN 1 ELSE 0] : b0 \in { bb \in Bins(sys) : bb[3] = 0 /\ bb[4] = 1 } }
+               \cup { [b \in Bins(sys) |-> IF b = b0 THEN 1 ELSE 0] : b0 \in { bb \in Bins(sys) : bb[3] = 0 /\ bb[4] = 1 /\ bb[1][1] = 1 } }
 
 BasicPairs(c) == { vs \in AllVS(c) : IsBasic(c, vs) }
 FullWin(g) == [g |-> g, k |-> 0, axlo |-> 0, axhi |-> 1, tlo |-> 0, thi |-> 1]
@@ -47,8 +50,6 @@ Tiles(g) == << [g |-> g, k |-> 0, axlo |-> 0, axhi |-> 0, tlo |-> 0, thi |-> 0],
                [g |-> g, k |-> 0, axlo |-> 1, axhi |-> 1, tlo |-> 0, thi |-> 1] >>
 Windows(c) == { FullWin(g) : g \in BasicPairs(c) } \cup UNION { Range(Tiles(g)) : g \in BasicPairs(c) }
 
-RECURSIVE SetToSeq(_)
-SetToSeq(S) == IF S = {} THEN << >> ELSE LET e == CHOOSE e \in S : TRUE IN << e >> \o SetToSeq(S \ {e})
 \* the windows the histories use: the groups of up to four basic pairs, whole and two tiles
 HistWindows(c) == UNION { { FullWin(g), Tiles(g)[1], Tiles(g)[3] } : g \in { b \in BasicPairs(c) : b[1] <= MaxHistView /\ b[2] >= 0 } }
 
@@ -59,11 +60,11 @@ Tasks ==
   \cup { [kind |-> k, cl |-> cl, arg |-> 0] : k \in { "B-whole", "B-groups", "B-windows", "B-tilings" }, cl \in Classes }
   \cup { [kind |-> "B-subsets", cl |-> cl, arg |-> N] : cl \in Classes, N \in 1 .. 5 }
 
-PieceOk(sys, T, X, Y) == ThLinear(sys, T, X, Y) /\ ThAdjoint(sys, T, X, Y) /\ ThScatterIsTranspose(sys, T, Y)
+PieceOk(sys, T, X, Y) == ThLinear(sys, T, ImagesBL, Y) /\ ThAdjoint(sys, T, X, Y) /\ ThScatterIsTranspose(sys, T, Y)
 EvalTask(t) ==
   CASE t.kind = "A-linear" -> ThLinear(SysA, Bins(SysA), ImagesA, { y \in DataA : \A b \in Bins(SysA) : b[1][1] >= 3 => y[b] = 0 })
     [] t.kind = "A-adjoint" -> ThAdjoint(SysA, Bins(SysA), ImagesA, DataA) /\ ThScatterIsTranspose(SysA, Bins(SysA), DataA)
-    [] t.kind = "B-whole" -> LET sys == SysB(t.cl) IN PieceOk(sys, Bins(sys), ImagesB, DataB(sys))
+    [] t.kind = "B-whole" -> LET sys == SysB(t.cl) IN SeqOk(sys) /\ SeqOk(SysA) /\ PieceOk(sys, Bins(sys), ImagesB, DataB(sys))
     [] t.kind = "B-subsets" ->
          LET sys == SysB(t.cl)
              N == t.arg
@@ -105,16 +106,17 @@ FForwardSubset(sys, s0, s, N, zero) ==
 FGetOutput(sys, s0) == IF Fault = "output-resets" THEN [s0 EXCEPT !.out = s0.acc, !.acc = ZeroImage(sys)] ELSE DoGetOutput(sys, s0)
 FForwardGroup(sys, s0, w) == IF Fault = "window-off-by-one" THEN DoForwardGroup(sys, s0, [w EXCEPT !.thi = w.thi - 1]) ELSE DoForwardGroup(sys, s0, w)
 
-Sys == SysB(task.cl)
+Sys == hsys     \* the system of a history: computed once in Init (an operator would be re-evaluated at every use)
 Hist == res = "hist" /\ depth < MaxDepth
-Step(a, s2) == /\ st' = s2 /\ prev' = st /\ last' = a /\ depth' = depth + 1 /\ UNCHANGED << task, res >>
+Step(a, s2) == /\ st' = s2 /\ prev' = st /\ last' = a /\ depth' = depth + 1 /\ UNCHANGED << task, res, hsys >>
 Init ==
-  \/ /\ task \in Tasks /\ res = "todo" /\ st = << >> /\ prev = << >> /\ last = NoAction /\ contrib = << >> /\ lastOut = << >> /\ depth = 0
+  \/ /\ task \in Tasks /\ res = "todo" /\ hsys = << >> /\ st = << >> /\ prev = << >> /\ last = NoAction /\ contrib = << >> /\ lastOut = << >> /\ depth = 0
   \/ /\ task \in { [kind |-> "hist", cl |-> cl, arg |-> 0] : cl \in Classes } /\ res = "hist"
-     /\ st = InitState(SysB(task.cl), InitData(SysB(task.cl))) /\ prev = st /\ last = NoAction
-     /\ contrib = << >> /\ lastOut = ZeroImage(SysB(task.cl)) /\ depth = 0
+     /\ hsys = SysB(task.cl)
+     /\ st = InitState(hsys, InitData(hsys)) /\ prev = st /\ last = NoAction
+     /\ contrib = << >> /\ lastOut = ZeroImage(hsys) /\ depth = 0
 Eval == /\ res = "todo" /\ res' = IF EvalTask(task) THEN "proved" ELSE "refuted"
-        /\ UNCHANGED << task, st, prev, last, contrib, lastOut, depth >>
+        /\ UNCHANGED << task, hsys, st, prev, last, contrib, lastOut, depth >>
 SetInput == Hist /\ \E x \in HistX : Step([kind |-> "SetInput", x |-> x], DoSetInput(Sys, st, x)) /\ UNCHANGED << contrib, lastOut >>
 ForwardSubset == Hist /\ \E N \in 1 .. MaxN, zero \in BOOLEAN : \E s \in 0 .. N - 1 :
                    Step([kind |-> "ForwardSubset", s |-> s, N |-> N, zero |-> zero], FForwardSubset(Sys, st, s, N, zero)) /\ UNCHANGED << contrib, lastOut >>
